@@ -369,6 +369,25 @@ def calc_cases(ctx):
                      "gate": [generate_gate_from_gate_name(x, c) for x in ("hadamard", "x")],
                      "mprocess": [generate_mprocess_from_name(c, x) for x in ("z-type1", "x-type1")]},
                     {"state": [1, 1, 1], "povm": [2, 2], "gate": [1, 1], "mprocess": [2, 2]}))
+    # objects that have already served as operands of operators (the usual way two-qubit testers are built from one-qubit
+    # ones): every object of the boundary layout is used once as left and once as right factor of a tensor product, and as an
+    # operand of a composition, BEFORE the schedules run - the objects must be unaffected
+    from quara.objects.operators import tensor_product as _tp, compose_qoperations as _comp
+    import qobj as _q
+    c_other = _q.csys("qubit", names=(12,))
+    fresh = {"state": lambda: generate_state_from_name(c_other, "x0"), "povm": lambda: generate_povm_from_name("x", c_other),
+             "gate": lambda: generate_gate_from_gate_name("hadamard", c_other),
+             "mprocess": lambda: generate_mprocess_from_name(c_other, "z-type1")}
+    used = layouts[-1][0]
+    ctx._c20_preuse_error = None
+    try:
+        for k in KINDS:
+            for obj in used[k]:
+                _tp(fresh[k](), obj)        # as right factor (a fresh partner every time) ...
+                _tp(obj, fresh[k]())        # ... and as left factor
+        _comp(used["povm"][0], used["gate"][0]); _comp(used["gate"][0], used["state"][0]); _comp(used["mprocess"][0], used["gate"][0])
+    except Exception as ex:  # noqa  (reported by the oracle)
+        ctx._c20_preuse_error = f"{type(ex).__name__}: {ex}"
     maxlen = 4 if ctx.quick else 5
     for lists, ms in layouts:
         n = {k: len(v) for k, v in lists.items()}
@@ -792,6 +811,9 @@ def oracle(ctx, volume=1):
             ctx.violate("C20/calc_prob_dist/not-normalised", f"schedule {s}: sum {ps.sum()} shape {ps.shape} (expected {ref.shape})", r)
         elif not np.allclose(ps, ref, atol=1e-9):
             ctx.violate("C20/calc_prob_dist/born-mismatch", f"schedule {s}: max deviation {np.abs(ps - ref).max():.3g} from tr(E_y ... G rho)", r)
+    if getattr(ctx, "_c20_preuse_error", None):
+        ctx.violate("C20/calc_prob_dist/objects-reused-as-operands/raises", f"tensor_product / compose on the objects of the experiment raises {ctx._c20_preuse_error}",
+                    rp("calc-preuse"))
     # (d) tomography classes accept exactly their own shape; accepted ones are executable
     objs = real_objects(ctx, 21)
     true_obj = {"qst": objs["state"][0], "povmt": objs["povm"][0], "qpt": objs["gate"][0], "qmpt": objs["mprocess"][0]}
